@@ -1,66 +1,16 @@
 //! ndv - property-based checks of num-dual (see /verif/DESIGN.md)
 //!
-//!   ndv <Cxx> [quick|thorough] [--seed N] [--replay FILE] [--cases N] [--shards N] [--no-evidence]
+//!   ndv <Cxx> [quick|thorough] [--seed N] [--replay FILE] [--cases N] [--shards N] [--direct N] [--no-evidence]
+//!   ndv selftest
 
-mod c01;
-mod c02;
-mod c02x;
-mod c03;
-mod c04;
-mod c05;
-mod c06;
-mod c07;
-mod c08;
-mod c09;
-mod c10;
-mod c11;
-mod c12;
-mod c13;
-mod c16;
-mod c18;
-mod bessel;
-mod common;
-mod engine;
-mod prog;
-mod registry;
-mod selftest;
-mod types;
+use ndv_core::engine::run;
+use ndv_core::*;
 
-use engine::{run, Args, Tier};
-use std::alloc::{GlobalAlloc, Layout, System};
-use std::sync::atomic::AtomicBool;
-
-/// the counting allocator is active (switched off only for experiments)
-pub static ALLOC_TRACKING: AtomicBool = AtomicBool::new(true);
-
-/// Counting global allocator: live allocations / bytes per thread (the leak oracle of C13).
-struct Counting;
-unsafe impl GlobalAlloc for Counting {
-    unsafe fn alloc(&self, l: Layout) -> *mut u8 {
-        let p = System.alloc(l);
-        if !p.is_null() {
-            let _ = c13::LIVE_ALLOCS.try_with(|c| c.set(c.get() + 1));
-            let _ = c13::LIVE_BYTES.try_with(|c| c.set(c.get() + l.size() as i64));
-        }
-        p
-    }
-    unsafe fn dealloc(&self, p: *mut u8, l: Layout) {
-        System.dealloc(p, l);
-        let _ = c13::LIVE_ALLOCS.try_with(|c| c.set(c.get() - 1));
-        let _ = c13::LIVE_BYTES.try_with(|c| c.set(c.get() - l.size() as i64));
-    }
-    unsafe fn realloc(&self, p: *mut u8, l: Layout, new_size: usize) -> *mut u8 {
-        let q = System.realloc(p, l, new_size);
-        if !q.is_null() {
-            let _ = c13::LIVE_BYTES.try_with(|c| c.set(c.get() + new_size as i64 - l.size() as i64));
-        }
-        q
-    }
-}
 #[global_allocator]
 static GLOBAL: Counting = Counting;
 
 fn main() {
+    ALLOC_TRACKING.store(true, std::sync::atomic::Ordering::Relaxed);
     let argv: Vec<String> = std::env::args().collect();
     if argv.len() < 2 {
         eprintln!("usage: ndv <Cxx> [quick|thorough] [--seed N] [--replay FILE] [--cases N] [--shards N]");
@@ -70,50 +20,7 @@ fn main() {
     if prop == "selftest" {
         std::process::exit(selftest::run());
     }
-    let mut tier = match std::env::var("VERIF_TIER").ok().as_deref() {
-        Some("thorough") => Tier::Thorough,
-        _ => Tier::Quick,
-    };
-    let mut seed: u64 = std::env::var("VERIF_SEED").ok().and_then(|s| s.trim().parse::<i64>().ok()).map(|v| v as u64).unwrap_or(20261002);
-    let mut replay = None;
-    let mut shards = std::thread::available_parallelism().map(|n| n.get()).unwrap_or(8).min(16);
-    let mut cases_override = None;
-    let mut evidence = true;
-    let mut direct = 0u64;
-    let mut i = 2;
-    while i < argv.len() {
-        match argv[i].as_str() {
-            "quick" => tier = Tier::Quick,
-            "thorough" => tier = Tier::Thorough,
-            "--seed" => {
-                i += 1;
-                seed = argv[i].parse::<i64>().expect("seed") as u64;
-            }
-            "--replay" => {
-                i += 1;
-                replay = Some(std::path::PathBuf::from(&argv[i]));
-            }
-            "--cases" => {
-                i += 1;
-                cases_override = Some(argv[i].parse().expect("cases"));
-            }
-            "--shards" => {
-                i += 1;
-                shards = argv[i].parse().expect("shards");
-            }
-            "--no-evidence" => evidence = false,
-            "--direct" => {
-                i += 1;
-                direct = argv[i].parse().expect("direct");
-            }
-            other => {
-                eprintln!("unknown argument {other}");
-                std::process::exit(2);
-            }
-        }
-        i += 1;
-    }
-    let args = Args { tier, seed, replay, shards, cases_override, evidence, direct };
+    let args = parse_args(&argv[2..]);
     let code = match prop.as_str() {
         "C01" => run::<c01::C01>(&args),
         "C02" => run::<c02::C02>(&args),
